@@ -37,6 +37,8 @@ pub fn gate(line: &[u8]) -> Gate {
     }
 }
 
+pub const NOALLOC_CAP: usize = 384;
+
 pub const SEQ: u32 = 1; // accept / reject, Complete / Incomplete, delivered payload (C05, C06)
 pub const FIELDS: u32 = 2; // every sentence field equals the transmitted one (C05, C07)
 pub const DECODE: u32 = 4; // decode flag semantics, message equals the unfragmented decode (C05, C07)
@@ -167,6 +169,30 @@ pub fn judge_line(
             let pred = model.predict(n, k, id, &f.payload);
             info.pred = Some(pred.clone());
             let mut res: Result<(), (String, String)> = Ok(());
+            // the no-allocator build holds at most 384 payload bytes per (reassembled) sentence:
+            // a line that would exceed that must be rejected with an error and leave no trace
+            if cfg.name() == "none" {
+                let held = model.open.as_ref().map(|g| g.payload.len()).unwrap_or(0);
+                let over_field = f.payload.len() > NOALLOC_CAP;
+                let over_total = matches!(pred, Pred::Continue | Pred::Deliver(_)) && held + f.payload.len() > NOALLOC_CAP;
+                if over_field || over_total {
+                    info.pred = Some(Pred::Reject("exceeds the 384-byte capacity of the no-allocator build"));
+                    if clauses & SEQ != 0 && !out.is_err() {
+                        res = Err((format!("an error (payload / reassembled total above {} bytes in the no-allocator build)", NOALLOC_CAP), out.brief()));
+                    }
+                    if out.is_ok() {
+                        model.unknown = true;
+                        model.open = None;
+                    }
+                    return (info, res);
+                }
+                if matches!(pred, Pred::Unspecified(_)) && held + f.payload.len() > NOALLOC_CAP {
+                    model.commit(&pred, n, k, id, &f.payload, seen_of(out));
+                    model.unknown = true;
+                    model.open = None;
+                    return (info, res);
+                }
+            }
             // capacity of the no-allocator build (C18's business): such cases are excluded by callers
             match &pred {
                 Pred::Single | Pred::Deliver(_) => {
